@@ -151,7 +151,16 @@ pub fn check_container<K: Kmer, V: Vmer>(name: &str, v: &V, model: &[u8], bexts:
             return Err(ctx("iter_kmers().count()/last() disagree with plain iteration".into()));
         }
         let bases: Vec<u8> = v.iter().take(n + 4).collect();
-        if bases != model || v.iter().skip(5).take(n + 4).count() != n.saturating_sub(5) || v.iter().nth(n).is_some() {
+        let skipped: Vec<u8> = v.iter().skip(5).take(n + 4).collect();
+        let mut bi = v.iter();
+        let third = bi.nth(2);
+        let fourth = bi.next();
+        if bases != model
+            || skipped[..] != model[n.min(5)..]
+            || third != model.get(2).copied()
+            || fourth != model.get(3).copied()
+            || v.iter().nth(n).is_some()
+        {
             return Err(ctx("iter() / skip / nth over the bases disagree with the sequence".into()));
         }
         let ex_skip: Vec<(K, Exts)> = v.iter_kmer_exts::<K>(Exts::new(bexts)).skip(6).take(nk + 4).collect();
